@@ -1,21 +1,34 @@
-(* C20  The regex engine reports exactly the reachable occurrences.  Property theorems only.
-   Reach / ReachPlus / CPath: instruction-level reachability, defined independently of the DFS (RegexLemmas). *)
-From Coq Require Import List String.
-From Tealer Require Import Syntax Cfg Analysis Regex RegexLemmas.
+(* C20  The regex engine reports exactly the reachable occurrences, and the covered set is exact.  Property theorems only.
+   Reach / ReachPlus / CPath: instruction-level reachability, defined independently of the DFS (RegexLemmas), over the
+   step relation rstep_rx: fall-through successor, jump targets, and callsub -> entry label of the called subroutine. *)
+From Coq Require Import List String NArith.
+From Tealer Require Import Syntax Cfg Analysis Regex InsExec RegexLemmas.
 Import ListNotations.
 Open Scope list_scope.
 
-(* matches = exactly the reachable straight-line occurrences, no duplicates; covered instructions all lie on a
-   path from the start to a match; every reachable match is reached by a path through covered instructions *)
+(* matches = exactly the reachable straight-line occurrences, no duplicates; the covered instructions are EXACTLY
+   those reachable from the start from which a match start is reachable in at least one step; every reachable
+   match is reached by a path through covered instructions *)
 Theorem C20_matches_and_covered : forall fuel t label regex start ms cov,
   find_regex_label t label = Some start ->
   match_regex fuel t label regex = Done (ms, cov) ->
   (forall m, In m ms <-> exists k, Reach (t_prog t) start k /\ is_match (t_prog t) (Some k) regex = true /\
                                    m = collect_match (t_prog t) k (Nat.pred (List.length regex))) /\
   NoDup ms /\
-  (forall c, In c cov -> Reach (t_prog t) start c /\ exists k, ReachPlus (t_prog t) c k /\ is_match (t_prog t) (Some k) regex = true) /\
+  (forall c, In c cov <-> Reach (t_prog t) start c /\ exists k, ReachPlus (t_prog t) c k /\ is_match (t_prog t) (Some k) regex = true) /\
   (forall k, Reach (t_prog t) start k -> is_match (t_prog t) (Some k) regex = true -> CPath (t_prog t) cov start k).
 Proof. exact match_regex_spec. Qed.
+
+(* the covered clause of C20 in full: c is covered iff it lies on a path  start ->* c ->+ k  to a reachable match start k
+   ("all lie on some path from the label to a match and include every instruction of every such path") *)
+Theorem C20_covered_exact : forall fuel t label regex start ms cov,
+  find_regex_label t label = Some start ->
+  match_regex fuel t label regex = Done (ms, cov) ->
+  forall c, In c cov <->
+            Reach (t_prog t) start c /\
+            exists k, ReachPlus (t_prog t) c k /\ Reach (t_prog t) start k /\
+                      is_match (t_prog t) (Some k) regex = true.
+Proof. exact match_regex_covered_exact. Qed.
 
 (* each reported match lists the pattern's instructions in order along unique-successor links, same class and text *)
 Theorem C20_match_listing : forall p regex k, regex <> [] -> is_match p (Some k) regex = true ->
@@ -25,13 +38,46 @@ Theorem C20_match_listing : forall p regex k, regex <> [] -> is_match p (Some k)
   (forall i a r, nth_error l i = Some a -> nth_error regex i = Some r -> exists o, op_at p a = Some o /\ is_equal o r = true).
 Proof. exact match_listing. Qed.
 
-(* the clause "covered includes every instruction of every such path" is REFUTED on the unchanged tree
-   (known finding D14: a branch into an already visited join is not marked) *)
-Theorem C20_covered_complete_refuted :
+(* why match_regex needs the backward closure: the set marked by the depth-first search find_instructions ALONE
+   does not include every instruction of every path to a match (former finding D14: a branch into an already
+   visited join, a loop body, is not marked) *)
+Theorem C20_dfs_alone_incomplete :
   ~ (forall p regex fuel start r st, find_instructions fuel p regex start (mkR [] [] []) = Done (r, st) ->
        forall c k, Reach p start c -> ReachPlus p c k -> is_match p (Some k) regex = true -> In c (r_covered st)).
-Proof. exact covered_incomplete_refuted. Qed.
+Proof. exact dfs_covered_incomplete_refuted. Qed.
+
+(* the step relation of Reach, spelled out, and its relation to the program-counter semantics of Spec/InsExec.v:
+   every control step except a retsub step is an edge (a retsub returns to the instruction after some callsub,
+   which is reached through that callsub's fall-through edge) *)
+Theorem C20_step_relation : forall p j k,
+  rstep_rx p j k <->
+  exists i, op_at p j = Some i /\
+    ((no_fallthrough i = false /\ S j < List.length p /\ k = S j) \/
+     (exists l, In l (jump_labels i) /\ find_label p l = Some k) \/
+     (exists l, i = ICallsub l /\ find_label p l = Some k)).
+Proof. intros; reflexivity. Qed.
+
+Theorem C20_step_covers_execution : forall p j st k st',
+  InsExec.istep p (j, st) (k, st') -> op_at p j <> Some IRetsub -> rstep_rx p j k.
+Proof. exact insexec_step_rstep_rx. Qed.
+
+(* the search follows callsub into the called subroutine:
+   #pragma version 8; callsub f; int 1; return; f:; int 7; pop; retsub   with pattern  int 7  from *:
+   one match at the int 7 position (5, line 6); covered = positions of #pragma, callsub f, f: (0,1,4 = lines 1,2,5).
+   First component: matches; second: covered as returned (with duplicates); third: covered sorted, duplicate-free *)
+Theorem C20_follows_callsub :
+  Examples.regex_on ["#pragma version 8"; "callsub f"; "int 1"; "return"; "f:"; "int 7"; "pop"; "retsub"]%string
+                    "*"%string [IInt (IANum 7%N)]
+  = Some ([[5]], [0; 1; 4; 0; 1; 4], [0; 1; 4]) /\
+  Examples.regex_on_lines ["#pragma version 8"; "callsub f"; "int 1"; "return"; "f:"; "int 7"; "pop"; "retsub"]%string
+                          "*"%string [IInt (IANum 7%N)]
+  = Some ([[6]], [1; 2; 5]).
+Proof. split; vm_compute; reflexivity. Qed.
 
 Print Assumptions C20_matches_and_covered.
+Print Assumptions C20_covered_exact.
 Print Assumptions C20_match_listing.
-Print Assumptions C20_covered_complete_refuted.
+Print Assumptions C20_dfs_alone_incomplete.
+Print Assumptions C20_step_relation.
+Print Assumptions C20_step_covers_execution.
+Print Assumptions C20_follows_callsub.
